@@ -254,6 +254,15 @@ def inline_closure_call(b, bb, pristine):
     if rv is None or rv['k'] != 'agg' or rv['agg']['k'] != 'tuple' or len(rv['ops']) != nargs:
         return None
     span = t['span']
+    # a capture by value holds what the variable was when the closure was made; reading the variable at the call instead is the same only
+    # if it is never assigned again (parameters and single-assignment locals)
+    for cap in M._capture_places(b, clo_local):
+        if cap is not None and cap[0] == 'val':
+            l = cap[1]['local']
+            if l > b['arg_count'] and len(_defs_of(b, l)) != 1:
+                return None
+            if l <= b['arg_count'] and l != 0 and _defs_of(b, l):
+                return None
     g = _graft(b, copy.deepcopy(c), {'k': 'copy', 'place': _pl(clo_local)}, [{'k': 'use', 'op': op} for op in rv['ops']], span)
     b['blocks'][bb]['term'] = {'k': 'goto', 'target': g['entry'], 'span': span, 'exp': True}
     b['blocks'][g['exit']] = {'cleanup': False, 'stmts': [{'k': 'assign', 'place': t['dest'], 'rv': {'k': 'use', 'op': {'k': 'move', 'place': _pl(g['ret'])}}, 'span': span, 'exp': True}],
@@ -378,6 +387,18 @@ def _literal_array(b, op, depth=0):
         return None
     _, d = defs[0]
     if d.get('k') == 'agg' and d['agg']['k'] == 'array':
+        loc = op['place']['local']
+        # the literal must still be what was written: no element of it is overwritten, its address is not handed out mutably, and
+        # every element is a constant or a temporary assigned once
+        for blk in b['blocks']:
+            for st in blk['stmts']:
+                if st['k'] == 'assign' and st['place']['local'] == loc and st['place']['proj']:
+                    return None
+                if st['k'] == 'assign' and st['rv'].get('k') == 'ref' and st['rv'].get('mut') and st['rv']['place']['local'] == loc:
+                    return None
+        for o in d['ops']:
+            if o['k'] in ('move', 'copy') and (o['place']['proj'] or len(_defs_of(b, o['place']['local'])) != 1):
+                return None
         return d['ops']
     if d.get('k') == 'use':
         return _literal_array(b, d['op'], depth + 1)
